@@ -238,4 +238,16 @@ func init() {
 		Assumptions: []string{"chi routing is not executed in the engine: route registration is intercepted to capture the handler closures, chi.URLParam returns the symbolic string (the string a request line is routed to is decided by chi's percent-decoding and matching, outside)", "os.OpenFile / http.ServeFile / Manager.ImportPcaps are recording stubs; path/filepath is the real interpreted code", "native replay sends the same name through the real router, handler and Manager and compares the directory tree outside the capture directory before and after"},
 		Outside: []string{"two concurrent uploads of the same name (kernel O_EXCL atomicity)", "chi's routing and percent-decoding", "http.ServeFile's own path checks", "names longer than maxfree+7 bytes"},
 	}
+
+	c12p := map[string]int{"streams": 2, "packets": 1, "payload": 1, "gaps": 1, "files": 1, "starts": 1, "idxbases": 1, "addrmode": 1, "saddrs": 1, "caddrs": 1, "dirs": 1}
+	registry["C12"] = CheckSpec{Property: "C12",
+		Harnesses: []HarnessSpec{
+			{Pkg: ix, Func: "ZZ_C12_IndexCut", Quick: tier(c12p), Bounds: "a finalized index file of 2 streams cut at every byte position: NewReader must reject it; uncut it serves everything"},
+			{Pkg: ix, Func: "ZZ_C12_Unfinalized", Quick: tier(c12p), Bounds: "writer closed without Finalize, buffer flushed or not: rejected (magic is written last)"},
+			{Pkg: "internal/index/builder", Func: "ZZ_C12_Snapshots", Quick: tier(nil), Bounds: "1..2 snapshots, 1..2 capture names, 0..2 packet numbers each (symbolic), chunk counts symbolic: save/load round trip; the file cut at every byte position is an error"},
+			{Pkg: cv, Func: "ZZ_C15_Cut", Quick: tier(map[string]int{"chunks": 1, "chunklen": 2, "ctypes": 2, "dts": 2}), Bounds: "converter cache cut inside its last record (shared with C15)"},
+		},
+		Assumptions: []string{"FILE-FORMAT SLICE ONLY: a half-written index, snapshot or cache file is modelled as a prefix of the complete file (cut at a byte) or as the pre-Finalize content; completed system calls persist", "NOT covered: the state file (JSON via reflection), manager.New's directory scan and tag re-convergence after restart, crash points between individual system calls of a running service"},
+		Outside: []string{"restart of the whole service", "state.json", "torn writes / reordering below system-call level"},
+	}
 }
